@@ -76,6 +76,18 @@ func texts(class int, what string, v int) string {
 	return fmt.Sprintf("%s v%d <script>alert(1)</script> %s", what, v, strings.Repeat("long ", 50))
 }
 
+// titleAt is the title of an issue after its first n events: the one it was born with or the one its last title event gave it
+// (the tracker is consistent: what the listing shows is what the notes lead to).
+func (tr *tracker) titleAt(is *issue, n int) string {
+	title := texts(is.Text, "title", 0)
+	for _, e := range is.Events[:n] {
+		if e.Kind == "title" {
+			title = fmt.Sprintf("new title %d", e.Id)
+		}
+	}
+	return title
+}
+
 func ts(t int) string {
 	return time.Date(2001, 1, 1, 0, 0, 0, 0, time.UTC).Add(time.Duration(t) * time.Second).Format(time.RFC3339)
 }
@@ -158,7 +170,7 @@ func (tr *tracker) serve(w http.ResponseWriter, r *http.Request) {
 		list := []interface{}{}
 		for _, iid := range iids {
 			is := tr.issues[iid]
-			list = append(list, map[string]interface{}{"id": 1000 + iid, "iid": iid, "project_id": 1, "title": texts(is.Text, "title", 0), "description": texts(is.Text, "description", is.DescV),
+			list = append(list, map[string]interface{}{"id": 1000 + iid, "iid": iid, "project_id": 1, "title": tr.titleAt(is, len(is.Events)), "description": texts(is.Text, "description", is.DescV),
 				"state": "opened", "created_at": ts(is.Born), "updated_at": ts(is.Upd), "author": user(1 + iid%2), "web_url": fmt.Sprintf("http://sim/issues/%d", iid), "labels": []string{}})
 		}
 		out = list
@@ -170,12 +182,12 @@ func (tr *tracker) serve(w http.ResponseWriter, r *http.Request) {
 		is := tr.issues[iid]
 		list := []interface{}{}
 		if is != nil {
-			for _, e := range is.Events {
+			for k, e := range is.Events {
 				switch {
 				case strings.HasPrefix(class, "notes:") && e.Kind == "comment":
 					list = append(list, map[string]interface{}{"id": e.Id, "body": texts(is.Text+e.Id, "comment", e.Body), "author": user(1 + e.Id%2), "system": false, "created_at": ts(e.T), "updated_at": ts(e.T + e.Body), "noteable_iid": iid})
 				case strings.HasPrefix(class, "notes:") && e.Kind == "title":
-					list = append(list, map[string]interface{}{"id": e.Id, "body": fmt.Sprintf("changed title from **old title** to **new title %d**", e.Id), "author": user(1), "system": true, "created_at": ts(e.T), "updated_at": ts(e.T)})
+					list = append(list, map[string]interface{}{"id": e.Id, "body": fmt.Sprintf("changed title from **%s** to **new title %d**", tr.titleAt(is, k), e.Id), "author": user(1), "system": true, "created_at": ts(e.T), "updated_at": ts(e.T)})
 				case strings.HasPrefix(class, "notes:") && e.Kind == "desc":
 					list = append(list, map[string]interface{}{"id": e.Id, "body": "changed the description", "author": user(2), "system": true, "created_at": ts(e.T), "updated_at": ts(e.T)})
 				case strings.HasPrefix(class, "labels:") && e.Kind == "label":
@@ -222,6 +234,7 @@ type BugObs struct {
 	Nedits int   `json:"nedits"` // edit operations without an id (comment bodies that changed)
 	Nops   int   `json:"nops"`
 	Valid  bool  `json:"valid"`
+	Title  int   `json:"title"` // the title event whose title the bug shows (0: the title the issue was born with, or no bug)
 }
 type Event struct {
 	Ev       string   `json:"ev"`
@@ -258,6 +271,9 @@ func observe(rc *cache.RepoCache, nIssue int) ([]BugObs, int) {
 		}
 		o.Known = true
 		o.Nops = len(snap.Operations)
+		if _, err := fmt.Sscanf(snap.Title, "new title %d", &o.Title); err != nil {
+			o.Title = 0
+		}
 		if err := b.Validate(); err != nil {
 			o.Valid = false
 		}
